@@ -23,8 +23,8 @@ for d in sorted(os.listdir(os.path.join(root, 'seeded'))):
     fn = m.get('function', '')
     if isinstance(fn, list):
         fn = ', '.join(fn)
-    files = m.get('files', [])
-    what = (m.get('description', '').split('. ')[0])[:150].replace('|', '/').replace('\n', ' ')
+    files = m.get('files', []) or ([m['file']] if m.get('file') else [])
+    what = ((m.get('description') or m.get('what') or '').split('. ')[0])[:150].replace('|', '/').replace('\n', ' ')
     rows.append('| %s | %s | %s | %s | %s | %s |' % (d, m.get('property', ''), (files[0] if files else '') + ' ' + fn.replace('|', '/'), what, res, ('`' + obl + '`') if obl else (m.get('why_missed', '') or '')))
 table = '| change | property | where | what | quick check | first failed obligation / why missed |\n|---|---|---|---|---|---|\n' + '\n'.join(rows)
 caught = sum(1 for r in rows if '| CAUGHT |' in r)
